@@ -67,11 +67,11 @@ pub struct St {
 #[derive(Clone, Copy, PartialEq, Eq, Debug)]
 pub struct Act {
     pub form: u16,
-    pub a: u8,
-    pub b: u8,
+    pub a: u16,
+    pub b: u16,
 }
-pub const SELF: u8 = 255;
-pub const NONE: u8 = 254;
+pub const SELF: u16 = 65535;
+pub const NONE: u16 = 65534;
 
 #[derive(Clone, Copy)]
 pub enum Val {
@@ -374,7 +374,7 @@ impl Sel {
 pub struct GM {
     pub gm: GroupModel,
     pub pool: Vec<Operand>,
-    pub op2: Vec<u8>,
+    pub op2: Vec<u16>,
     pub seeds: Vec<Seed>,
     pub forms: Vec<Form>,
     pub scalars: Vec<Scalar>,
@@ -394,6 +394,11 @@ pub struct GM {
 }
 
 pub fn build_model(sel: Sel, max_depth: u8) -> GM {
+    build_model_ex(sel, max_depth, None)
+}
+
+/// `extra`: replace the scalar alphabet (name, value, number of limbs)
+pub fn build_model_ex(sel: Sel, max_depth: u8, extra: Option<Vec<(String, BigUint, usize)>>) -> GM {
     let dc = Decaf::new();
     let one = BigUint::one();
     let h = dc.elligator_spec(&one);
@@ -436,14 +441,17 @@ pub fn build_model(sel: Sel, max_depth: u8) -> GM {
         let lam = f.neg(&one);
         pool[7].e = scaled(&hmg, &lam);
     }
-    let op2 = vec![1u8, 4u8]; // second operand of 3-term sums: T2, G+T2
+    let op2 = vec![1u16, 4u16]; // second operand of 3-term sums: T2, G+T2
 
     // scalars
     let sc = |name: &str, k: BigUint, nl: usize| -> Scalar {
         let fr_ok = k < r;
         Scalar { name: name.to_string(), fr: fr(&(&k % &r)), fr_ok, limbs: limbs_n(&k, nl), big: k }
     };
-    let scalars = vec![
+    let scalars = if let Some(ex) = extra {
+        ex.into_iter().map(|(n, k, nl)| sc(&n, k, nl)).collect()
+    } else {
+        vec![
         sc("0", u(0), 4),
         sc("1", u(1), 4),
         sc("2", u(2), 1),
@@ -451,7 +459,8 @@ pub fn build_model(sel: Sel, max_depth: u8) -> GM {
         sc("(r+1)/2", (&r + 1u32) >> 1, 4),
         sc("r+1", &r + 1u32, 4),
         sc("2^256+3", (BigUint::one() << 256) + 3u32, 5),
-    ];
+    ]
+    };
 
     // seeds
     let mut seeds: Vec<Seed> = vec![];
@@ -642,7 +651,7 @@ impl GM {
     }
     pub fn describe_act(&self, a: &Act) -> Value {
         let form = &self.forms[a.form as usize];
-        let opn = |i: u8| -> String {
+        let opn = |i: u16| -> String {
             if i == SELF {
                 "self".into()
             } else if (i as usize) < self.pool.len() {
@@ -662,12 +671,12 @@ impl GM {
         let name = v.get("form")?.as_str()?;
         let fi = self.forms.iter().position(|f| f.name == name)?;
         let form = &self.forms[fi];
-        let opi = |key: &str| -> Option<u8> {
+        let opi = |key: &str| -> Option<u16> {
             let n = v.get(key)?.as_str()?;
             if n == "self" {
                 return Some(SELF);
             }
-            self.pool.iter().position(|o| o.name == n).map(|i| i as u8)
+            self.pool.iter().position(|o| o.name == n).map(|i| i as u16)
         };
         Some(match form.arg {
             Arg::None => Act { form: fi as u16, a: NONE, b: NONE },
@@ -675,7 +684,7 @@ impl GM {
             Arg::Op2 => Act { form: fi as u16, a: opi("o1")?, b: opi("o2")? },
             Arg::ScalarFr | Arg::ScalarLimbs => {
                 let n = v.get("k")?.as_str()?;
-                Act { form: fi as u16, a: self.scalars.iter().position(|s| s.name == n)? as u8, b: NONE }
+                Act { form: fi as u16, a: self.scalars.iter().position(|s| s.name == n)? as u16, b: NONE }
             }
         })
     }
@@ -982,13 +991,13 @@ impl Model for GM {
             match form.arg {
                 Arg::None => out.push(Act { form: fi, a: NONE, b: NONE }),
                 Arg::Op1 => {
-                    for i in 0..self.pool.len() as u8 {
+                    for i in 0..self.pool.len() as u16 {
                         out.push(Act { form: fi, a: i, b: NONE });
                     }
                     out.push(Act { form: fi, a: SELF, b: NONE });
                 }
                 Arg::Op2 => {
-                    for i in 0..self.pool.len() as u8 {
+                    for i in 0..self.pool.len() as u16 {
                         for &j in &self.op2 {
                             out.push(Act { form: fi, a: i, b: j });
                         }
@@ -997,12 +1006,12 @@ impl Model for GM {
                 Arg::ScalarFr => {
                     for (i, k) in self.scalars.iter().enumerate() {
                         if k.fr_ok {
-                            out.push(Act { form: fi, a: i as u8, b: NONE });
+                            out.push(Act { form: fi, a: i as u16, b: NONE });
                         }
                     }
                 }
                 Arg::ScalarLimbs => {
-                    for i in 0..self.scalars.len() as u8 {
+                    for i in 0..self.scalars.len() as u16 {
                         out.push(Act { form: fi, a: i, b: NONE });
                     }
                 }
